@@ -221,6 +221,11 @@ macro_rules! drive {
             let v: Vec<Value> = pool.install(|| ($tuple).par_join().map(|$pat| json!($body)).collect());
             v
         } else {
+            // (the body of every other run does parallel work of its own - a nested parallel join on the same
+            // pool - as systems built from library calls do)
+            let nest: specs::hibitset::BitSet = [1u32, 2, 3, 70, 4100].iter().copied().collect();
+            let nested = $run.threads % 4 == 0;
+            let nest_bad = std::sync::atomic::AtomicUsize::new(0);
             pool.install(|| {
                 ($tuple).par_join().for_each(|$pat| {
                     // a little work so that other workers get a chance to steal
@@ -229,10 +234,16 @@ macro_rules! drive {
                         x = x.wrapping_mul(31).wrapping_add(k);
                     }
                     std::hint::black_box(x);
+                    if nested && (&nest).par_join().count() != 5 {
+                        nest_bad.fetch_add(1, std::sync::atomic::Ordering::Relaxed);
+                    }
                     let v = json!($body);
                     out.lock().unwrap().push(v);
                 })
             });
+            if nest_bad.into_inner() > 0 {
+                panic!("a parallel join nested in the body of a parallel join delivered a wrong number of items");
+            }
             out.into_inner().unwrap()
         }
     }};
